@@ -248,9 +248,11 @@ func poke(input OmegaInput) (output OmegaOutput) {
 
 	// otherwise if N_o...+z not subset of \mathbf{V}_m[n]_u
 	if !isWriteable(o, z, input.Addition.IntegratedPVMMap[n].Memory) { // not writeable, return
+		// the INNER range is not writable: error code OOB, the outer machine continues (GP B.9);
+		// only an unreadable OUTER source range panics
 		input.VM.Registers[7] = OOB
 		return OmegaOutput{
-			ExitReason: ExitPanic,
+			ExitReason: ExitContinue,
 			Addition:   input.Addition,
 		}
 	}
